@@ -68,9 +68,10 @@ H("c09_length_decompress", "object.rs", {"C09": X}, ["object::Stream::decompress
 H("c09_decompress_bookkeeping", "object.rs", {"C09": Q}, ["object::Stream::decompress", "object::Stream::set_content"],
   "stream with Filter and DecodeParms, decoding stubbed to two fixed bytes: Filter and DecodeParms removed, content replaced, Length updated", timeout=900, mem_gb=12,
   stubs=LS + ["object::Stream::decompressed_content -> fixed two bytes (decompress()'s bookkeeping only)"])
-H("c09_lzw_early_change_param", "object.rs", {"C09": X}, ["object::Stream::decompress_lzw", "object::Stream::decompress_lzw_loop", "object::Stream::decompress_predictor"],
-  "LZW stage called directly, /EarlyChange integer 0 | 1 | null, all 3-byte inputs; weezl replaced by the tagged stub", timeout=900, mem_gb=10, stubs=LS)
-H("c09_stage_no_params", "object.rs", {"C09": X}, ["object::Stream::decompress_zlib", "object::Stream::decompress_lzw"], "Flate and LZW stages called directly without parameters, all 3-byte inputs", timeout=600, mem_gb=8)
+for v, d in (("0", "/EarlyChange 0"), ("1", "/EarlyChange 1"), ("absent", "no /EarlyChange (default 1)")):
+    H(f"c09_lzw_early_change_{v}", "object.rs", {"C09": Q}, ["object::Stream::decompress_lzw", "object::Stream::decompress_lzw_loop", "object::Stream::decompress_predictor"],
+      f"LZW stage called directly with {d}, all 3-byte inputs; weezl replaced by the tagged stub (decoder variant observable)", timeout=900, mem_gb=6, stubs=LS + ["filters::png::decode_frame -> recording stub (predictor is not the subject)"])
+H("c09_stage_no_params", "object.rs", {"C09": Q}, ["object::Stream::decompress_zlib", "object::Stream::decompress_lzw"], "Flate and LZW stages called directly without parameters, all 3-byte inputs", timeout=600, mem_gb=8)
 H("c09_compress_never_longer", "object.rs", {"C09": Q}, ["object::Stream::compress", "object::Stream::set_content"],
   "22-byte content, encoder stub output length arbitrary 0..=24: never longer, Length consistent, Filter set iff replaced", timeout=900, mem_gb=12, stubs=LS + ["flate2::write::ZlibEncoder -> output of arbitrary length"])
 H("c09_compress_prefiltered", "object.rs", {"C09": Q}, ["object::Stream::compress"], "22-byte content, stream already has a Filter: untouched", timeout=400, mem_gb=6, stubs=LS)
@@ -79,12 +80,13 @@ for n in ("c09_chain_flate_name_dict", "c09_chain_lzw_array_dict", "c09_chain_pa
 
 # =============================== C01 / C03 / C14: writer kernels ================================
 WK = {"C01": Q, "C03": Q, "C14": Q}
+WKS = {"C01": Q, "C03": Q, "C14": Q, "C16": Q}  # literal strings also carry shown text (C16: "also after the document is saved")
 WKT = {"C01": T, "C03": T, "C14": T}
 WKX = {"C01": X}
 for n, pr, to, mem in ((1, WK, 400, 6), (2, WK, 600, 8), (3, WK, 600, 8), (4, WKT, 900, 8)):
     H(f"c01_name_{n}", "writer.rs", pr, ["writer::Writer::write_name"],
       f"all names of exactly {n} bytes: token is regular printable ASCII and an ISO 7.3.5 reader recovers the bytes", timeout=to, mem_gb=mem)
-for n, pr, to, mem in ((1, WK, 400, 6), (2, WK, 900, 14), (3, WKX, 900, 10), (4, WKX, 2700, 10)):
+for n, pr, to, mem in ((1, WKS, 400, 6), (2, WKS, 1200, 16), (3, WKX, 900, 10), (4, WKX, 2700, 10)):
     H(f"c01_litstr_{n}", "writer.rs", pr, ["writer::Writer::write_string"],
       f"all literal strings of exactly {n} bytes: an ISO 7.3.4.2 reader (escapes, octal, balanced parentheses, EOL normalisation) recovers the bytes",
       timeout=to, mem_gb=mem, stubs=CONTAINS)
@@ -164,7 +166,8 @@ H("c05_pkcs5_roundtrip", "pkcs5.rs", {"C05": Q, "C06": Q}, ["encryption::pkcs5::
 H("c05_pkcs5_unpad_spec", "pkcs5.rs", {"C05": Q, "C06": Q}, ["encryption::pkcs5::Pkcs5::raw_unpad"], "all 16-byte blocks: accepted iff PKCS#5-well-formed", timeout=400, mem_gb=4)
 H("c06_rc4_key_vector", "rc4.rs", {"C05": Q, "C06": Q}, ["encryption::rc4::Rc4::new", "encryption::rc4::Rc4::encrypt", "encryption::rc4::Rc4::decrypt", "encryption::rc4::Rc4::apply_keystream"],
   "key 'Key' (published test vector), all 8-byte plaintexts: ciphertext = plaintext XOR published keystream; decrypt inverts encrypt", timeout=1200, mem_gb=12, fs_size=300)
-H("c06_rc4_long_stream", "rc4.rs", {"C06": X, "C05": X}, ["encryption::rc4::Rc4::new", "encryption::rc4::Rc4::apply_keystream"], "key 'Key', 262-byte stream (last 6 bytes symbolic): ciphertext bytes 250..262 equal the reference RC4 (index wrap-around after 255 bytes)", timeout=1500, mem_gb=12, fs_size=300)
+H("c06_rc4_long_stream", "rc4.rs", {"C06": Q, "C05": T}, ["encryption::rc4::Rc4::new", "encryption::rc4::Rc4::apply_keystream"], "key 'Key', 262-byte stream (last 6 bytes symbolic): ciphertext bytes 250..262 equal the reference RC4 (index wrap-around after 255 bytes)", timeout=1500, mem_gb=12, fs_size=300, witness_from="c06_rc4_long_witness")
+H("c06_rc4_long_witness", "rc4.rs", {"C06": X}, [], "witness helper for c06_rc4_long_stream", timeout=300, mem_gb=4)
 H("c06_rc4_ref_key40", "rc4.rs", {"C06": T, "C05": T}, ["encryption::rc4::Rc4::new", "encryption::rc4::Rc4::apply_keystream"], "one concrete 40-bit key, all 6-byte plaintexts vs an independent reference RC4", timeout=1200, mem_gb=10, fs_size=300)
 H("c06_rc4_ref_key128", "rc4.rs", {"C06": T, "C05": T}, ["encryption::rc4::Rc4::new", "encryption::rc4::Rc4::apply_keystream"], "one concrete 128-bit key, all 6-byte plaintexts vs an independent reference RC4", timeout=1200, mem_gb=10, fs_size=300)
 H("c06_rc4_ref_symkey1", "rc4.rs", {"C06": X}, ["encryption::rc4::Rc4::new"], "every 1-byte key", timeout=2700, mem_gb=16, fs_size=300)
